@@ -427,3 +427,113 @@ Fixpoint fields_eqb (a b : list field) : bool :=
   | x :: a', y :: b' => field_eqb x y && fields_eqb a' b'
   | _, _ => false
   end.
+
+(* ---------------- Decoder.SetMaxStringLength(M) (0 = unlimited, the default) ----------------
+   ErrStringLength and ErrInvalidHuffman are observed as one error class (E_HUFFMAN): huffmanDecode reports
+   whichever it meets first.  With M = 0 every *_lim function equals its unlimited counterpart (HpackLimProofs). *)
+Section Limited.
+Variable hd : bytes -> hres.
+Variable M : Z.
+Definition too_long (n : Z) : bool := negb (M =? 0) && (n >? M).
+
+(* readString: strLen > maxStrLen is checked before the data is awaited; huffmanDecode(buf, maxStrLen, .) fails
+   when the decoded string would exceed maxStrLen *)
+Definition read_string_lim (p : bytes) : rd bytes :=
+  match p with
+  | [] => RNeedMore
+  | b0 :: _ =>
+    match read_varint 7 p with
+    | ROk len r =>
+      if too_long len then RErr E_HUFFMAN
+      else if blen r <? len then RNeedMore
+      else
+        let s := firstn (Z.to_nat len) r in
+        let rest := skipn (Z.to_nat len) r in
+        if 128 <=? b0 then
+          match hd s with
+          | HOk x => if too_long (blen x) then RErr E_HUFFMAN else ROk x rest
+          | HErr => RErr E_HUFFMAN
+          | HPanic => RPanic
+          | HFuel => RErr E_FUEL
+          end
+        else ROk s rest
+    | RNeedMore => RNeedMore
+    | RErr c => RErr c
+    | RPanic => RPanic
+    end
+  end.
+Definition parse_literal_lim (d : dyntab) (n : Z) (it : Z) (p : bytes) : rd (dyntab * option field) :=
+  match read_varint n p with
+  | ROk nameIdx r =>
+    let name_r : rd bytes :=
+      if nameIdx >? 0 then
+        match dec_at d nameIdx with
+        | Some (nm, _) => ROk nm r
+        | None => RErr E_INDEX
+        end
+      else read_string_lim r in
+    match name_r with
+    | ROk nm r1 =>
+      match read_string_lim r1 with
+      | ROk v r2 =>
+        let hf := mkF nm v (it =? 2) in
+        if it =? 0 then
+          match dt_add d (mkF nm v false) with
+          | Some d' => ROk (d', Some hf) r2
+          | None => RPanic
+          end
+        else ROk (d, Some hf) r2
+      | RNeedMore => RNeedMore | RErr c => RErr c | RPanic => RPanic
+      end
+    | RNeedMore => RNeedMore | RErr c => RErr c | RPanic => RPanic
+    end
+  | RNeedMore => RNeedMore | RErr c => RErr c | RPanic => RPanic
+  end.
+Definition parse_repr_lim (first : bool) (d : dyntab) (p : bytes) : rd (dyntab * option field) :=
+  match p with
+  | [] => RNeedMore
+  | b :: _ =>
+    if 128 <=? b then parse_indexed d p
+    else if 64 <=? b then parse_literal_lim d 6 0 p
+    else if b <? 16 then parse_literal_lim d 4 1 p
+    else if b <? 32 then parse_literal_lim d 4 2 p
+    else parse_size_update first d p
+  end.
+(* Write's loop; callEmit's length check comes after the table was updated and firstField cleared;
+   on errNeedMore the "extra paranoia" check refuses to buffer more than 2*(maxStrLen+8) bytes *)
+Fixpoint parse_loop_lim (fuel : nat) (first : bool) (d : dyntab) (buf : bytes) (acc : list field) : dec * list field * Z :=
+  match buf with
+  | [] => (mkD d [] first, acc, 0)
+  | _ =>
+    match fuel with
+    | O => (mkD d [] first, acc, E_FUEL)
+    | S f =>
+      match parse_repr_lim first d buf with
+      | ROk (d', o) rest =>
+        match o with
+        | Some x =>
+          if too_long (blen (fname x)) || too_long (blen (fvalue x)) then (mkD d' [] false, acc, E_HUFFMAN)
+          else parse_loop_lim f false d' rest (x :: acc)
+        | None => parse_loop_lim f first d' rest acc
+        end
+      | RNeedMore =>
+        if negb (M =? 0) && (blen buf >? 2 * (M + 8)) then (mkD d [] first, acc, E_HUFFMAN)
+        else (mkD d buf first, acc, 0)
+      | RErr c => (mkD d [] first, acc, c)
+      | RPanic => (mkD d [] first, acc, ST_PANIC)
+      end
+    end
+  end.
+Definition dec_write_lim (d : dec) (p : bytes) : dec * list field * Z :=
+  match p with
+  | [] => (d, [], 0)
+  | _ => let buf := dsave d ++ p in
+         let '(d', acc, st) := parse_loop_lim (S (length buf)) (dfirst d) (ddt d) buf [] in (d', rev acc, st)
+  end.
+Fixpoint dec_run_lim (d : dec) (chunks : list bytes) (acc : list field) : dec * list field * Z :=
+  match chunks with
+  | [] => let '(d', st) := dec_close d in (d', acc, st)
+  | c :: r => let '(d', fs, st) := dec_write_lim d c in
+              if st =? 0 then dec_run_lim d' r (acc ++ fs) else (d', acc ++ fs, st)
+  end.
+End Limited.
